@@ -146,6 +146,76 @@ def w_leb(cs):
             pjob(bytes([0x01, 0x40, 0]))]
 
 
+def w_wide(cs):
+    T = cs.s
+
+    def job(d):
+        def f():
+            s = io.BytesIO(d)
+            o = T(s)
+            return (norm(o), s.tell(), o.dumps() == d[: s.tell()])
+        return f
+    def mk(n, k, name, m, tail):
+        return (bytes([n]) + name.encode("utf-16-le") + b"".join(x.to_bytes(2, "little") for x in m) + bytes([k])
+                + bytes(tail) + b"\xEE")
+    return [job(mk(2, 1, "hé", [1, 2, 3, 4], [9])), job(mk(3, 3, "abc", [5, 6, 7, 8], [1, 2, 3])),
+            job(mk(0, 0, "", [9, 9, 9, 9], []))]
+
+
+def w_nullstructs(cs):
+    T = cs.s
+
+    def job(d):
+        def f():
+            s = io.BytesIO(d)
+            o = T(s)
+            return (norm(o), s.tell(), o.dumps())
+        return f
+    return [job(bytes([1, 2, 3, 4, 0, 0]) + (0xAABBCCDD).to_bytes(4, "little")),
+            job(bytes([9, 9, 0, 0]) + (1).to_bytes(4, "little")), job(bytes([0, 0]) + (7).to_bytes(4, "little"))]
+
+
+def w_enums(cs):
+    T = cs.s
+
+    def job(d):
+        def f():
+            s = io.BytesIO(d)
+            o = T(s)
+            return (norm(o), s.tell(), o.dumps(), repr(o.f), [repr(x) for x in o.e], o.f == cs.F(d[0]),
+                    hash(o.f) == hash(cs.F(d[0])))
+        return f
+    # unknown / composite values, different per thread, so that pseudo-members are created while threads interleave
+    return [job(bytes([0x85, 0x34, 0x12, 0x01, 0x00, 0xB5])), job(bytes([0x4A, 0x02, 0x00, 0xFF, 0xFF, 0x2E])),
+            job(bytes([0x07, 0x99, 0x99, 0x02, 0x00, 0xFF]))]
+
+
+def w_dumpmix(cs):
+    T = cs.s
+
+    def pjob(d):
+        def f():
+            s = io.BytesIO(d)
+            o = T(s)
+            return (norm(o), s.tell())
+        return f
+
+    def djob(a, items, t):
+        def f():
+            o = T(a=a, n=len(items), items=[cs.it(x=x, y=y) for x, y in items], t=t)
+            d = o.dumps()
+            return (d, norm(T(d)))
+        return f
+
+    def zjob():
+        def f():
+            o = T()
+            o.items.append(cs.it(x=1, y=2))
+            return (norm(o), norm(T()), T().dumps())
+        return f
+    return [pjob(bytes([5, 0, 2, 1, 2, 0, 3, 4, 0, 9])), djob(300, [(1, 2), (3, 4), (5, 6)], 7), zjob()]
+
+
 WORKLOADS = [
     ("expr", "struct s { uint8 n; uint8 m; char d[(n + m) * 2 - 1]; uint16 v[n]; uint8 z; };", w_expr),
     ("bits", "enum E : uint8 { A, B, C };\nstruct s { uint16 a:3; uint16 b:13; E e:4; uint8 r:4; int32 x; };", w_bits),
@@ -155,6 +225,11 @@ WORKLOADS = [
     ("nested", "struct in { uint8 c; uint16 w[c]; };\nstruct s { uint8 n; in items[n]; wchar name[]; uint32 tail; };",
      w_nested),
     ("leb", "struct s { uleb128 a; ileb128 b; uint8 n; uint32 arr[n]; };", w_leb),
+    ("wide", "struct s { uint8 n; wchar name[n]; uint16 m[2][2]; uint8 k; uint8 tail[k & 3]; };", w_wide),
+    ("nullstructs", "struct in { uint8 a; uint8 b; };\nstruct s { in items[]; uint32 crc; };", w_nullstructs),
+    ("enums", "flag F : uint8 { A, B, C };\nenum E : uint16 { X = 1, Y };\nstruct s { F f; E e[2]; F g : 3; uint8 r : 5; };",
+     w_enums),
+    ("dumpmix", "struct it { uint8 x; uint16 y; };\nstruct s { uint16 a; uint8 n; it items[n]; uint8 t; };", w_dumpmix),
 ]
 
 
